@@ -109,17 +109,6 @@ theorem good_restore_self {m : Bool → St → Res × St} (hm : Good m) :
   refine ⟨h.1, fun e => ?_⟩
   rw [h.2 e]
 
-theorem genErr_snd (x : Res × St) : (genErr x).2 = x.2 := by
-  unfold genErr
-  split <;> rfl
-
-theorem good_genErr {m : Bool → St → Res × St} (hm : Good m) : Good (fun c s => genErr (m c s)) := by
-  intro s
-  have h := hm s
-  simp only [genErr_snd]
-  refine ⟨h.1, fun e => ?_⟩
-  rw [h.2 e]
-
 theorem good_assert_out (v : V) : Good (fun c s => assertHint c s.out v s) :=
   fun s => good_assert s.out v s
 
@@ -272,7 +261,7 @@ theorem goodAt_succ (F : Funs) (n : Nat) (ih : GoodAt F n) : GoodAt F (n + 1) :=
       exact good_andThen (good_bindLoop bs v) (fun _ => good_andThen (ih.eval body) (fun w => ih.forItems _ _ _ _))
   · intro bs i genv st pc body last
     simp only [forGen]
-    refine good_andThen (good_genErr (good_restore_self (good_pre _ (fun _ => rfl) (ih.genNext i st pc)))) (fun r => ?_)
+    refine good_andThen (good_restore_self (good_pre _ (fun _ => rfl) (ih.genNext i st pc))) (fun r => ?_)
     split
     · exact good_andThen (good_bindLoop bs _) (fun _ => good_andThen (ih.eval body) (fun w => ih.forGen _ _ _ _ _ _ _))
     · exact good_ret _
